@@ -277,10 +277,14 @@ def run_workers(exe, variant, prop, stage_name, mode, nworkers, per_worker_args,
     return results
 
 
+CONFIRM_ANY = set()      # properties whose failures depend on thread interleaving: one reproduction in six replays confirms
+
+
 def confirm_violation(exe, variant, prop, casefile, extra_args):
     """Replay 3x bypassing the generator.  Returns 'fail', 'known', 'pass' or 'unstable'."""
-    r = run([exe, "--mode", "replay", "--file", casefile, "--times", "3"] + extra_args, env=child_env(variant))
-    if r.returncode == 1:
+    times = "6" if prop in CONFIRM_ANY else "3"
+    r = run([exe, "--mode", "replay", "--file", casefile, "--times", times] + extra_args, env=child_env(variant))
+    if r.returncode == 1 or (r.returncode == 4 and prop in CONFIRM_ANY and "REPLAY-UNSTABLE" in r.stdout and ": FAIL " in r.stdout):
         return "fail", r.stdout
     if r.returncode == 3:
         return "known", r.stdout
@@ -427,6 +431,8 @@ def run_check(prop, tier, scale):
         raise SystemExit("unknown property " + prop)
     cfg = registry.PROPS[prop]
     EXTRA_ENV.clear(); EXTRA_ENV.update(cfg.get("env", {}))
+    if cfg.get("confirm_any"):
+        CONFIRM_ANY.add(prop)
     ev = Evidence(prop, tier, cfg["level"])
     ev.rule = cfg["rule"]
     ev.assumptions = list(cfg.get("assumptions", []))
